@@ -2,6 +2,7 @@
 pub open spec fn TW() -> int { 0x1_0000_0000 }                 // 2^32
 pub open spec fn TT() -> int { TW() * TW() }             // the byte counter is two words wide
 pub open spec fn rotr(x: u32, n: u32) -> u32 { (x >> n) | (x << ((32 - n) as u32)) }
+#[verifier::opaque]
 pub open spec fn addw(a: u32, b: u32) -> u32 { a.wrapping_add(b) }
 pub open spec fn IV() -> Seq<u32> { seq![0x6A09E667u32, 0xBB67AE85u32, 0x3C6EF372u32, 0xA54FF53Au32, 0x510E527Fu32, 0x9B05688Cu32, 0x1F83D9ABu32, 0x5BE0CD19u32] }
 // message word schedule SIGMA (RFC 7693 2.7), one row per round (rounds 10 and 11 of BLAKE2b reuse rows 0 and 1)
@@ -25,11 +26,13 @@ pub open spec fn G(v: Seq<u32>, a: int, b: int, c: int, d: int, x: u32, y: u32) 
     let c2 = addw(c1, d2);              let b2 = rotr(b1 ^ c2, 7);
     v.update(a, a2).update(b, b2).update(c, c2).update(d, d2)
 }
+#[verifier::opaque]
 pub open spec fn round(v: Seq<u32>, m: Seq<u32>, r: int) -> Seq<u32> {
     let s = SIGMA(r % 10);
     let v1 = G(G(G(G(v, 0, 4, 8, 12, m[s[0]], m[s[1]]), 1, 5, 9, 13, m[s[2]], m[s[3]]), 2, 6, 10, 14, m[s[4]], m[s[5]]), 3, 7, 11, 15, m[s[6]], m[s[7]]);
     G(G(G(G(v1, 0, 5, 10, 15, m[s[8]], m[s[9]]), 1, 6, 11, 12, m[s[10]], m[s[11]]), 2, 7, 8, 13, m[s[12]], m[s[13]]), 3, 4, 9, 14, m[s[14]], m[s[15]])
 }
+#[verifier::opaque]
 pub open spec fn rounds(v: Seq<u32>, m: Seq<u32>, n: int) -> Seq<u32> decreases n { if n <= 0 { v } else { round(rounds(v, m, n - 1), m, n - 1) } }
 pub open spec fn le_word(b: Seq<u8>) -> u32 { (b[0] as int + b[1] as int * 0x100 + b[2] as int * 0x10000 + b[3] as int * 0x1000000) as u32 }
 pub open spec fn words_of(blk: Seq<u8>) -> Seq<u32> { Seq::new(16, |i: int| le_word(blk.subrange(4 * i, 4 * i + 4))) }
